@@ -971,7 +971,11 @@ impl<'de, R: Read<'de>> Parser<R> {
                         let next = self.peek_or_null()?;
                         if next == 0 || is_delimiter(next) {
                             if !have_value {
-                                return Err(self.peek_error(ErrorCode::ExpectedSomeValue));
+                                // `(.` at the end of the input may still become `(.a)`
+                                return Err(match self.peek()? {
+                                    Some(_) => self.peek_error(ErrorCode::ExpectedSomeValue),
+                                    None => self.peek_error(ErrorCode::EofWhileParsingList),
+                                });
                             }
                             pair.set_cdr(self.expect_value()?);
                             match self.parse_whitespace()? {
@@ -1031,7 +1035,11 @@ impl<'de, R: Read<'de>> Parser<R> {
                         let next = self.peek_or_null()?;
                         if next == 0 || is_delimiter(next) {
                             if !have_value {
-                                return Err(self.peek_error(ErrorCode::ExpectedSomeValue));
+                                // `(.` at the end of the input may still become `(.a)`
+                                return Err(match self.peek()? {
+                                    Some(_) => self.peek_error(ErrorCode::ExpectedSomeValue),
+                                    None => self.peek_error(ErrorCode::EofWhileParsingList),
+                                });
                             }
                             let (cdr, cdr_meta) = self.expect_datum()?.into_inner();
                             pair.set_cdr(cdr);
